@@ -327,8 +327,18 @@ fn oracle_wellformed(case: &[u8], obs: &mut Obs, f: Flavor) -> Result<(), String
         let mut order: Vec<&Vec<u8>> = queries.iter().collect();
         order.sort_by_key(|q| (hash_of(f, q), q.len()));
         let idx_of = |q: &Vec<u8>| -> Option<usize> { (b.first_hashed..b.all.len()).find(|i| &b.all[*i] == q) };
+        let mut symtab2 = b.tab.symtab.clone();
+        let (es, vo, vl) = if b.enc.c64 { (24, 8, 8) } else { (16, 4, 4) };
+        for ent in symtab2.chunks_mut(es) {
+            if ent.len() == es {
+                for x in &mut ent[vo..vo + vl] {
+                    *x = !*x;
+                }
+            }
+        }
         let r: Result<(), String> = with_endian!(b.spec, |e| (|| -> Result<(), String> {
             let st = SymbolTable::new(e, class, &b.tab.symtab);
+            let st2 = SymbolTable::new(e, class, &symtab2);
             let strs = StringTable::new(&b.tab.strtab);
             let both: Vec<&Vec<u8>> = order.iter().copied().chain(order.iter().rev().copied()).collect();
             match f {
@@ -340,6 +350,13 @@ fn oracle_wellformed(case: &[u8], obs: &mut Obs, f: Flavor) -> Result<(), String
                         if got.is_some() != present || got.map(|i| &b.all[i] != q).unwrap_or(false) {
                             return Err(format!("query {:?} answered {:?} when asked after other queries on the same table value (present: {})", String::from_utf8_lossy(q), got, present));
                         }
+                        // the same handle with ANOTHER symbol table (same names, every st_value inverted): the entry
+                        // handed out is the one of the table passed to this call
+                        let got2 = t.find(q, &st2, &strs).map_err(|er| format!("find failed with {}", err_name(&er)))?;
+                        let want2 = got.map(|i| st2.get(i).map_err(|er| format!("harness: {}", err_name(&er)))).transpose()?;
+                        if got2.as_ref().map(|x| x.0) != got || got2.as_ref().map(|x| x.1.st_value) != want2.as_ref().map(|x| x.st_value) {
+                            return Err(format!("query {:?} with a second symbol table on the same table value answered {:?}; that table's entry is {:?}", String::from_utf8_lossy(q), got2, want2));
+                        }
                     }
                 }
                 Flavor::SysV => {
@@ -349,6 +366,13 @@ fn oracle_wellformed(case: &[u8], obs: &mut Obs, f: Flavor) -> Result<(), String
                         let present = idx_of(q).is_some();
                         if got.is_some() != present || got.map(|i| &b.all[i] != q).unwrap_or(false) {
                             return Err(format!("query {:?} answered {:?} when asked after other queries on the same table value (present: {})", String::from_utf8_lossy(q), got, present));
+                        }
+                        // the same handle with ANOTHER symbol table (same names, every st_value inverted): the entry
+                        // handed out is the one of the table passed to this call
+                        let got2 = t.find(q, &st2, &strs).map_err(|er| format!("find failed with {}", err_name(&er)))?;
+                        let want2 = got.map(|i| st2.get(i).map_err(|er| format!("harness: {}", err_name(&er)))).transpose()?;
+                        if got2.as_ref().map(|x| x.0) != got || got2.as_ref().map(|x| x.1.st_value) != want2.as_ref().map(|x| x.st_value) {
+                            return Err(format!("query {:?} with a second symbol table on the same table value answered {:?}; that table's entry is {:?}", String::from_utf8_lossy(q), got2, want2));
                         }
                     }
                 }
@@ -568,7 +592,7 @@ pub fn property_c11() -> Property {
     Property {
         id: "C11",
         level: "exploration",
-        rule: "wellformed: cases are (class, order, fixed/run-time spec, name set of 0..300 names with duplicates, empty name, bytes>=0x80, constructed djb2 collisions (a,b)->(a+1,b-33), collisions between a name and a LONGER name having it as prefix and names whose hash is 0 or 1 (both by meet-in-the-middle), proper suffixes of other names (tail-merged string tables), pairs P, X adjacent in the string table with djb2(P\\0X) = djb2(P), rarely 4 200..7 200 symbols on 1..3 chains, low-bit neighbours and same-bucket names, nbucket, bloom words 1..64 (powers of two), shift 0..31, symoffset 1..4, shared or unshared string-table entries); the section is built per the GNU format by an independent builder; queries = every symbol name plus absent names (colliding, same-bucket, low-bit neighbours, prefixes, extensions, random, the concatenation of two adjacent string-table entries with the NUL between them, and present names with a NUL appended); oracle = linear scan: Some((i,s)) only with i a hashed index carrying the name and s == symtab[i], None iff no hashed symbol carries the name, never Err. sound: the same after 1..8 random corruptions of hash section / symtab / strtab (or raw bytes): Some((i,s)) => symtab[i]==s and name(s)==query. hashfn: gnu_hash == djb2 reference exhaustively on all strings of length<=3 over a 16-symbol alphabet and on random strings up to 64 bytes. Non-trivial (wellformed): a table with >=2 symbols in one chain and at least one absent query whose hash collides (ignoring bit 0) with a present one; distinct by table hash.",
+        rule: "wellformed: cases are (class, order, fixed/run-time spec, name set of 0..300 names with duplicates, empty name, bytes>=0x80, constructed djb2 collisions (a,b)->(a+1,b-33), collisions between a name and a LONGER name having it as prefix and names whose hash is 0 or 1 (both by meet-in-the-middle), proper suffixes of other names (tail-merged string tables), pairs P, X adjacent in the string table with djb2(P\\0X) = djb2(P), rarely 4 200..7 200 symbols on 1..3 chains, low-bit neighbours and same-bucket names, nbucket, bloom words 1..64 (powers of two), shift 0..31, symoffset 1..4, shared or unshared string-table entries); the section is built per the GNU format by an independent builder; queries = every symbol name plus absent names (colliding, same-bucket, low-bit neighbours, prefixes, extensions, random, the concatenation of two adjacent string-table entries with the NUL between them, and present names with a NUL appended); oracle = linear scan: Some((i,s)) only with i a hashed index carrying the name and s == symtab[i], None iff no hashed symbol carries the name, never Err. All queries are repeated on ONE table value in hash order (both directions), each also with a second symbol table of the same names and inverted st_value: every answer is a function of that call's arguments (the entry comes from the table passed to it). sound: the same after 1..8 random corruptions of hash section / symtab / strtab (or raw bytes): Some((i,s)) => symtab[i]==s and name(s)==query. hashfn: gnu_hash == djb2 reference exhaustively on all strings of length<=3 over a 16-symbol alphabet and on random strings up to 64 bytes. Non-trivial (wellformed): a table with >=2 symbols in one chain and at least one absent query whose hash collides (ignoring bit 0) with a present one; distinct by table hash.",
         assumptions: &["duplicate names: any index carrying the queried name is accepted", "well-formed tables use power-of-two bloom sizes and shifts 0..31 as the GNU format requires"],
         subs: vec![
             Sub::new("wellformed", gnu_well, 2600, 200_000, 8_000_000),
@@ -584,7 +608,7 @@ pub fn property_c12() -> Property {
     Property {
         id: "C12",
         level: "exploration",
-        rule: "wellformed: cases are (class, order, fixed/run-time spec, name set of 0..300 names with duplicates, empty name, bytes>=0x80, names longer than 6 bytes, elf_hash collisions found by search, names that drive the running hash to 0x0fffffff before the next shift, proper suffixes of other names (tail-merged string tables), rarely 4 200..7 200 symbols on 1..3 chains, same-bucket names, nbucket 1..64, head/tail/mixed chain insertion); the .hash section is built per the gABI (nchain = symbol count, chains end at STN_UNDEF); queries = every symbol name plus absent names incl. colliding ones and present names with a NUL appended; oracle = linear scan over symbols 1..n: Some((i,s)) only with i>=1 carrying the name and s == symtab[i], None iff absent (so symbol 0 is never returned), never Err. sound: same after random corruption: Some((i,s)) => symtab[i]==s and name(s)==query. hashfn: sysv_hash == gABI elf_hash (32-bit arithmetic) exhaustively on all strings of length<=3 over a 16-symbol alphabet incl. high bytes and on random strings up to 64 bytes. Non-trivial (wellformed): >=2 symbols in one chain and an absent colliding query; distinct by table hash.",
+        rule: "wellformed: cases are (class, order, fixed/run-time spec, name set of 0..300 names with duplicates, empty name, bytes>=0x80, names longer than 6 bytes, elf_hash collisions found by search, names that drive the running hash to 0x0fffffff before the next shift, proper suffixes of other names (tail-merged string tables), rarely 4 200..7 200 symbols on 1..3 chains, same-bucket names, nbucket 1..64, head/tail/mixed chain insertion); the .hash section is built per the gABI (nchain = symbol count, chains end at STN_UNDEF); queries = every symbol name plus absent names incl. colliding ones and present names with a NUL appended; oracle = linear scan over symbols 1..n: Some((i,s)) only with i>=1 carrying the name and s == symtab[i], None iff absent (so symbol 0 is never returned), never Err. All queries are repeated on ONE table value in hash order (both directions), each also with a second symbol table of the same names and inverted st_value: every answer is a function of that call's arguments (the entry comes from the table passed to it). sound: same after random corruption: Some((i,s)) => symtab[i]==s and name(s)==query. hashfn: sysv_hash == gABI elf_hash (32-bit arithmetic) exhaustively on all strings of length<=3 over a 16-symbol alphabet incl. high bytes and on random strings up to 64 bytes. Non-trivial (wellformed): >=2 symbols in one chain and an absent colliding query; distinct by table hash.",
         assumptions: &["duplicate names: any index carrying the queried name is accepted"],
         subs: vec![
             Sub::new("wellformed", sysv_well, 2600, 200_000, 8_000_000),
